@@ -511,13 +511,24 @@ func renderNum(t *rapid.T, v uint32) string {
 	return strconv.FormatUint(uint64(v), 10)
 }
 
+var strictByte = rapid.OneOf(
+	rapid.ByteRange('a', 'z'), rapid.ByteRange('0', '9'),
+	rapid.SampledFrom([]byte("#$*;|~`(){}[]?^_./:=,@%+<>&!-")),
+	rapid.ByteRange(0x21, 0x7e), rapid.ByteRange(0x80, 0xff), rapid.ByteRange(0x02, 0x08),
+).Filter(func(b byte) bool { return b != '\'' && b != '"' && b != '\\' })
+
 func genString(t *rapid.T, label string, o Opts, max int) []byte {
 	if max <= 0 {
 		max = 30
 	}
 	var s string
 	if o.Strict {
-		s = rapid.StringMatching(`[A-Za-z0-9_./:,@%+-][A-Za-z0-9_./:=,@%+<>&!-]{0,`+strconv.Itoa(max-1)+`}`).Draw(t, label)
+		// everything the C07 domain admits: any byte but white space, the quote characters ' " \ and NUL
+		b := rapid.SliceOfN(strictByte, 1, max).Draw(t, label)
+		if strings.IndexByte("=<>&!", b[0]) >= 0 {
+			b[0] = 'x' // a leading operator character is the business of the "ambiguous" shape below
+		}
+		s = string(b)
 	} else if o.FlagsRoute {
 		// the shell-style tokenizer cannot carry every byte; stay with printable text plus quotes and spaces
 		s = rapid.StringMatching(`[A-Za-z0-9_./:,@%+ '"\\-][A-Za-z0-9_./:=,@%+ '"\\<>&!-]{0,`+strconv.Itoa(max-1)+`}`).Draw(t, label)
@@ -856,8 +867,10 @@ func genKeys(t *rapid.T, o Opts) [][]byte {
 		var k string
 		if o.Strict && !o.FlagsRoute {
 			// struct route: a key may contain commas (only the -k flag of the text form splits at commas)
-			k = rapid.StringMatching(`[A-Za-z0-9_.:=/@%+,-]{1,12}`).Draw(t, "key")
-		} else if o.Strict || o.FlagsRoute {
+			k = string(rapid.SliceOfN(strictByte, 1, 12).Draw(t, "key"))
+		} else if o.Strict {
+			k = string(rapid.SliceOfN(strictByte.Filter(func(b byte) bool { return b != ',' }), 1, 12).Draw(t, "key"))
+		} else if o.FlagsRoute {
 			k = rapid.StringMatching(`[A-Za-z0-9_.:=/@%+-]{1,12}`).Draw(t, "key")
 		} else {
 			k = string(genString(t, "key", o, 12))
